@@ -801,16 +801,23 @@ func runC14(rc *fw.RunCtx) {
 		}
 		out = &EvalOutcome{}
 		out3 = &EvalOutcome{}
+		// the pool's evaluations run under the run's context or (half of the
+		// time) under one that can never be cancelled
+		pctx := ctx
+		if g.Bool() {
+			pctx = context.Background()
+			rc.Hit("pooled_background_context")
+		}
 		s.Go("main", "main", func() {
 			guard(out, func() (object.Object, error) {
-				return risor.EvalCode(ctx, codeMain, append(append([]risor.Option{}, opts...), risor.WithVM(machine))...)
+				return risor.EvalCode(pctx, codeMain, append(append([]risor.Option{}, opts...), risor.WithVM(machine))...)
 			})
 			opensAfterFirst = len(sfs.Opens)
 			if useLocal {
 				opensAfterFirst = len(s.Notes)
 			}
 			guard(out3, func() (object.Object, error) {
-				return risor.EvalCode(ctx, codeMain, append(append([]risor.Option{}, opts3...), risor.WithVM(machine))...)
+				return risor.EvalCode(pctx, codeMain, append(append([]risor.Option{}, opts3...), risor.WithVM(machine))...)
 			})
 		})
 	} else {
